@@ -176,20 +176,24 @@ Section WaitRL.
     - tr; [exact S3|apply IH].
   Qed.
 
+  Lemma rl_wait_reset c ids s : RLs s (wait_reset sc c ids s).
+  Proof. apply RLs_same; [apply wait_reset_tbl|apply wait_reset_tr]. Qed.
+
   Lemma rl_wait_task c g ids s : RLs s (wait_task sc c g ids s).
   Proof.
     unfold wait_task. cbv zeta.
     pose proof (rl_wait_start c g ids s) as S1.
     destruct (wait_start c g ids s) as [s1 w1]. cbn [fst] in S1.
-    destruct (w_pending w1); [exact S1|].
+    destruct (w_pending w1); [tr; [exact S1|apply rl_wait_reset]|].
     destruct (match e_watch_err_at (sc_env sc) with Some n => Nat.eqb n (snd g) | None => false end);
       [tr; [exact S1|apply RLs_same; reflexivity]|].
     pose proof (rl_deliver c g ids (w_deliv (nth (snd g) (e_waits (sc_env sc)) (mkW [] WTimeout))) s1 w1) as S2.
     destruct (deliver sc c g ids _ s1 w1) as [s2 w2]. cbn [fst] in S2.
     tr; [exact S1|]. tr; [exact S2|].
-    destruct (w_pending w2); [apply RLs_refl|].
+    destruct (w_pending w2); [apply rl_wait_reset|].
     destruct (w_end _).
-    - destruct (match c with AllCurrent => _ | AllNotFound => _ end); [apply rl_wait_timeout|apply RLs_same; reflexivity].
+    - destruct (match c with AllCurrent => _ | AllNotFound => _ end);
+        [tr; [apply rl_wait_timeout|apply rl_wait_reset]|apply RLs_same; reflexivity].
     - apply RLs_same; reflexivity.
   Qed.
 End WaitRL.
